@@ -84,8 +84,12 @@ theorem inactive_startCost (c : Ctx) (h : c.active = false) : c.startCost = 0 :=
 def StOk (st : PState) : Prop :=
   CtxOk st.ctx ∧ (match st.mode with
     | .plain => True
-    | .fg i _ => i < 100
-    | .bg i _ => i < 100)
+    | .fg i _ _ => i < 100
+    | .bg i _ _ => i < 100)
+
+theorem continues_lt {i n : Nat} {c : Char} (h : continues i n c = true) :
+    i * Gen.colorBase + digitVal c < Gen.colorLimit := by
+  simp only [continues, Bool.and_eq_true, decide_eq_true_eq] at h; exact h.2
 
 theorem plainStep_ok {st : PState} (h : CtxOk st.ctx) (hm : st.mode = .plain) (c : Char) :
     StOk (plainStep st c) := by
@@ -122,27 +126,23 @@ theorem step_ok (hc : ConstsOk) {st : PState} (h : StOk st) (c : Char) : StOk (s
   unfold step
   split
   · rename_i hm; exact plainStep_ok hctx hm c
-  · rename_i i set hm
+  · rename_i i set n hm
     rw [hm] at hmode
     simp only at hmode
     split
-    · dsimp only
-      split
-      · exact plainStep_ok (st := (setFg st (optOf i set)).bump) (ctxOk_setFg hctx hmode set) rfl c
-      · rename_i hj
-        exact ⟨hctx, by simp only; omega⟩
+    · rename_i hcont
+      have := continues_lt hcont
+      exact ⟨hctx, by simp only; omega⟩
     · split
       · exact ⟨ctxOk_setFg hctx hmode set, by simp⟩
       · exact plainStep_ok (st := (setFg st (optOf i set)).bump) (ctxOk_setFg hctx hmode set) rfl c
-  · rename_i i set hm
+  · rename_i i set n hm
     rw [hm] at hmode
     simp only at hmode
     split
-    · dsimp only
-      split
-      · exact plainStep_ok (st := (setBg st (optOf i set)).bump) (ctxOk_setBg hctx hmode set) rfl c
-      · rename_i hj
-        exact ⟨hctx, by simp only; omega⟩
+    · rename_i hcont
+      have := continues_lt hcont
+      exact ⟨hctx, by simp only; omega⟩
     · exact plainStep_ok (st := (setBg st (optOf i set)).bump) (ctxOk_setBg hctx hmode set) rfl c
 
 theorem foldl_step_ok (hc : ConstsOk) (s : Str) : ∀ st, StOk st → StOk (s.foldl step st) := by
@@ -155,8 +155,8 @@ theorem finish_ctxOk {st : PState} (h : StOk st) : CtxOk (finish st).ctx := by
   unfold finish
   split
   · exact hctx
-  · rename_i i set hm; rw [hm] at hmode; exact ctxOk_setFg hctx hmode set
-  · rename_i i set hm; rw [hm] at hmode; exact ctxOk_setBg hctx hmode set
+  · rename_i i set n hm; rw [hm] at hmode; exact ctxOk_setFg hctx hmode set
+  · rename_i i set n hm; rw [hm] at hmode; exact ctxOk_setBg hctx hmode set
 
 /-- every context the parser returns holds colours of at most two digits -/
 theorem parse_ctxOk (hc : ConstsOk) (s : Str) : CtxOk (parse s).ctx :=
